@@ -3,6 +3,8 @@
 
 package cache
 
+import "sync/atomic"
+
 // deleteEntry removes the entry that was inspected.
 //
 // sync.Map.CompareAndDelete is not available before go1.20, so an entry that
@@ -18,6 +20,15 @@ func (c *syncMap) deleteEntry(key, entry interface{}) bool {
 
 		return false
 	}
+
+	return true
+}
+
+// expireEntry marks the entry as expired.
+//
+// sync.Map.CompareAndSwap is not available before go1.20, the entry is changed in place.
+func (c *syncMap) expireEntry(_ interface{}, entry *TraitEntry, expireAt int64) bool {
+	atomic.StoreInt64(&entry.E, expireAt)
 
 	return true
 }
